@@ -26,7 +26,7 @@ RULE = ('Hypothesis RuleBasedStateMachine: the state is a set of script globals 
         'matches s and none of its single-edit neighbours; urlEncode/urlEncodeComponent are reversed by percent-decoding and emit only '
         'unreserved/allowed characters. Non-trivial: a sequence with >= 1 mutation through an alias and >= 1 failing call (counted per '
         'sequence); classes report per-function ok/failed counts.')
-RULE += " Also: script match functions for arrayIndexOf / arrayLastIndexOf returning {}, [], '', 0, null, the element itself; indices a hair off an integer (n +- 1e-10); URLs with characters that are not in NFC form, %-sequences."
+RULE += " Also: script match functions for arrayIndexOf / arrayLastIndexOf returning {}, [], '', 0, null, the element itself; indices a hair off an integer (n +- 1e-10); URLs with characters that are not in NFC form, %-sequences. Round 5: a match function that changes the array being searched; library functions as match functions over arrays of arrays; keys that are present and hold null."
 ASSUMPTIONS = ['arrayDelete\'s return value, searches for the empty string, stringReplace with an empty pattern and comparison callbacks are not asserted',
                'strings avoid code points that str.splitlines treats as line ends (script text is line oriented)']
 
